@@ -306,3 +306,12 @@ func (ti *TypeInfo) IfaceTag(v *Term) *Term {
 	ti.u.Declare("iface_tag", SInt, SIface)
 	return App("iface_tag", SInt, v)
 }
+
+// Sidx: absolute index of element i of a slice with offset off.  Kept as an uninterpreted application (with the
+// defining axiom sidx(o,i) = o+i) so that quantifier patterns over element reads do not contain arithmetic.
+func Sidx(off, i *Term) *Term {
+	if off.Kind == kLit && off.Op == "0" {
+		return i
+	}
+	return App("sidx", SInt, off, i)
+}
